@@ -11,7 +11,7 @@ ASSUMPTIONS = ["rule names are ASCII, so str.casefold() is ASCII lower-casing",
 
 def run(ctx):
     out = os.path.join(C.WORK, "c10.json")
-    n = 60 if ctx["tier"] == "quick" else 1500
+    n = 60 * ctx.get("boost", 1) if ctx["tier"] == "quick" else 1500
     rc, so, se = C.sh([C.PY, os.path.join(C.VERIF, "tools", "loader_x.py"), "--mode", "c10", "--seed", str(ctx["seed"]),
                        "--n", str(n), "--out", out], env=C.env_for_impl("0"), timeout=6000)
     if rc != 0:
